@@ -83,7 +83,7 @@ type refUnit struct {
 	TailFF   bool // PSI: pad the last packet with 0xFF instead of adaptation-field stuffing
 }
 
-func refPES(r *Rng, pid uint16, sid byte, n int, unbounded bool) *refUnit {
+func refMuxPES(r *Rng, pid uint16, sid byte, n int, unbounded bool) *refUnit {
 	u := &refUnit{PID: pid, StreamID: sid, PTS: -1}
 	u.Data = r.Bytes(n)
 	w := &bw{}
@@ -372,7 +372,7 @@ func genRefStream(r *Rng, o streamOpts) *refStreamModel {
 			case 1:
 				n = r.Range(1, 8)
 			}
-			addUnit(refPES(r, pid, sid, n, (sid == 0xe0 || sid == 0xe1) && r.Bool()))
+			addUnit(refMuxPES(r, pid, sid, n, (sid == 0xe0 || sid == 0xe1) && r.Bool()))
 		}
 	}
 	// interleave, preserving per-PID order; the PAT unit precedes every packet of the PMT PID (pat_before_pmt)
